@@ -32,7 +32,19 @@ CLAIMED["C02"] = dict(
     note="Trusted: harness block builder/walker (miniz_oxide, own CRC-32) as the definition of the flat content; source delivery is a knob, judged in C12.",
     engine="seq-sim")
 
-NOT_YET = {p: "claimed in DESIGN.md; check under construction in this round (will move to checks when registered)" for p in ["C03","C12","C13","C14","C15","C16"]}
+CLAIMED["C13"] = dict(
+    category="fault_enumeration", design="DESIGN.md §8 C13",
+    technique="deterministic simulation with crash-point enumeration: every cut offset of generated files on a simulated disk, prefix oracle against the written model",
+    text="Crash-point enumeration: files written by the real noodles writers from harness-generated models are cut at every byte "
+         "offset (all files <= 6000 bytes) or at every offset within 40 bytes of each structural boundary plus a seeded sample "
+         "(larger files, many BGZF members); a fresh reader then reads each prefix through every reading-protocol variant. The "
+         "oracle is the statement itself: delivered items are an unchanged prefix of what was written, no panic, raw BAM/BCF "
+         "record streams / CRAM containers cut mid-unit end in Err. Complete for the one-fault space of each generated file; the "
+         "files themselves are sampled.",
+    note="Trusted: harness model text as the definition of what was written; rendering via noodles text writers. Known finding listed in known_findings.json (cut at a BGZF member boundary inside a text line).",
+    engine="seq-sim")
+
+NOT_YET = {p: "claimed in DESIGN.md; check under construction in this round (will move to checks when registered)" for p in ["C03","C12","C14","C15","C16"]}
 
 NOT_APPLICABLE = {
     "C04": "pure function of (records, block layout, index geometry, region): no schedule, fault, crash point or history in the statement; input generation with a scan oracle is not deterministic simulation. Reader-state carry-over between seeks is decided in C02, delivery independence of queries in C12, corrupt indexes in C15.",
